@@ -897,6 +897,27 @@ Section Sound.
     split; [exact (SI_nil_inv _ _ PS)|split; [exact (LI_nil_inv _ _ PL)|split; [exact PC|split; [exact PB|exact PCb]]]].
   Qed.
 
+  (* any table check_table accepts will do (infer is only one way to find it) *)
+  Theorem table_sound : forall fuel tpl ae depth c tbl s o,
+    tpl_good tpl -> check_table c a_empty tbl = true -> refs_resolved reg wd c = true -> blocks_good s ->
+    match run W wr wd fuel tpl ae depth c 0 s o with
+    | RFail e => no_panic e
+    | ROutOfFuel => True
+    | RDone s' o' =>
+        stack s' = stack s /\ map lf_end_ip (loops s') = map lf_end_ip (loops s) /\
+        length (caps s') = length (caps s) /\ blocks s' = blocks s /\ cur_block s' = cur_block s
+    end.
+  Proof.
+    intros fuel tpl ae depth c tbl s o HT HC HR HB.
+    destruct (check_table_ok _ _ _ HC) as (HK & a & E & Hs).
+    assert (Hinv : Inv (stack s) (map lf_end_ip (loops s)) (length (caps s)) a s).
+    { apply (Inv_sub _ _ _ a_empty a s Hs). split; [apply SI_nil|split; [apply LI_base|reflexivity]]. }
+    pose proof (run_sound fuel tpl ae depth c tbl 0 a s o _ _ _ HT HK HR E Hinv HB) as P.
+    destruct (run W wr wd fuel tpl ae depth c 0 s o) as [s' o'|e|]; [|exact (ok_err_no_panic _ P)|exact I].
+    destruct P as ((PS & PL & PC) & PB & PCb & _).
+    split; [exact (SI_nil_inv _ _ PS)|split; [exact (LI_nil_inv _ _ PL)|split; [exact PC|split; [exact PB|exact PCb]]]].
+  Qed.
+
   (* the per-chunk form with the two checks spelled out *)
   Theorem check_chunk_sound : forall fuel tpl ae depth c s o,
     tpl_good tpl -> check_chunk c = true -> refs_resolved reg wd c = true -> blocks_good s ->
